@@ -43,6 +43,21 @@ keep the 201 ctest tests green (no test reads a listing) and all six are caught:
   m6 asmlist.c: byte tail switch `>=` instead of `>`                     last word of a line listed as bytes
 ./check C19 --selftest shows the binding on a small program (changed listed byte / continuation address / share
 value / MAP address / code-file byte are each rejected).
+
+Extension "reports" (checks/ext_reports.py, spec/ListingReports*.tla, vlib/listreports.py; details in the docstring of
+checks/ext_reports.py): the report sections behind the source listing - usage list (-u) = occupied addresses = image
+of the code file, warning 90 <=> a statement meets an occupied address, cross reference list (-C) = look-ups per
+symbol / file / line with counts and definition site, section list (-s) = the nesting tree, macro / function /
+register symbol lists, include nesting list (-I, drift only), page layout of PAGE (line width, lines per page).
+(M) ListingReports_MC: four bounded machines (usage with the CodeWriter model attached, xref, sections, pages),
+quick 27 k / thorough ~4 M states, plus two configurations TLC must refute (deviations of chunks.c DeleteChunk and
+WrLstLine); (G) ListingReports_Gen: simulated programs of 10 statements (overlaps by ORG backwards, two segments,
+symbols looked up 0..3 times per line, macro, function, nested include files, sections two deep) with expected
+reports, rendered for 8051 and 320C25, assembled with `page 0` and `page L,W`; (V) ListingReports_Trace: hook
+records of all passes replayed through the same operators, every tokenised report item judged by TLC; golden
+sources with -L -C -u -s -I -listradix 16/8/10/2 (quick 40 small ones, thorough all below 120 k hook records).
+Findings: known_findings/C19-reports.json (DeleteChunk after RetractWords - t_7720 lists 41-7A for code at 0-7A;
+PAGE 0,w ignores the width).  Mutations r1..r5 tried: see checks/ext_reports.py.
 """
 import os
 import shutil
@@ -524,6 +539,8 @@ def main(tier):
              symbol_reports=sum(m["stats"]["syms"] for (m, _) in infos),
              line_address_entries=sum(m["stats"]["maplines"] for (m, _) in infos),
              emissions=sum(m["stats"]["emits"] for (m, _) in infos), rejected_runs=len(bad))
+    from checks import ext_reports          # phase "reports": usage / cross reference / section ... lists, page layout
+    ext_reports.run(rep, bld, tier)
     return rep.finish(
         rule="runs = TLC-simulated programs of the Listing core (<= 9 statements, <= 13 bytes per line) rendered in 4 "
              "dialects + golden sources (quick: 45 seed-chosen, thorough: all 201), each assembled with -L -listradix "
@@ -563,6 +580,9 @@ def replay(path):
     log("recorded: %s" % v["what"])
     log("files of the run (listing, debug file, share file, sources if generated) are in %s" % path)
     c = v["case"]
+    if (v.get("key") or {}).get("phase") == "reports":
+        from checks import ext_reports
+        return ext_reports.replay(path, c)
     if c["kind"] == "generated":
         bld = build.get("hook")
         srcs = {}
@@ -617,4 +637,6 @@ def selftest(tier):
         log("selftest %-32s %s" % (n, "rejected" if rej else "accepted"))
         ok = ok and (rej == (n != "unchanged"))
     log("selftest C19 binding: %s" % ("OK" if ok else "FAILED"))
+    from checks import ext_reports
+    ok = ext_reports.selftest() and ok
     return 0 if ok else 1
